@@ -30,7 +30,9 @@ impl Typstyle {
 
         let attrs = AttrStore::new(node.get()); // Here we only compute the attributes of that subtree.
         let printer = PrettyPrinter::new(self.config.clone(), attrs);
-        let ctx = Context::default().with_mode(mode);
+        // The node may directly follow a hash in markup or math, as in whole-document formatting.
+        let after_hash = node.prev_sibling_kind() == Some(SyntaxKind::Hash);
+        let ctx = Context::default().with_mode(mode).embedded(after_hash);
         let doc = if let Some(markup) = node.cast() {
             printer.convert_markup(ctx, markup)
         } else if let Some(expr) = node.cast() {
